@@ -514,6 +514,8 @@ def _real_arg(x):
         return {k: _real_arg(v) for k, v in x.items()}
     if isinstance(x, type) and isinstance(x, (_ScalarMeta,)):
         return x.__mro__[1]
+    if isinstance(x, type) and isinstance(x, _AbstractMeta):
+        return x._base
     return x
 
 
